@@ -1,3 +1,4 @@
+import os
 import re
 """E2 query table (mir2smt).  Each query: real function (MIR name regex), pre, post, bounds, replay."""
 BV64 = ("bv", 64, False)
@@ -518,7 +519,7 @@ def opa_post(c, p):
     return and_(*conj)
 
 
-Q(name="e2_on_packet_authenticated", props=["C04"], func=r"connection/mod\.rs:\d+:1: \d+:16>::on_packet_authenticated$",
+Q(name="e2_on_packet_authenticated", props=["C04", "C14"], func=r"connection/mod\.rs:\d+:1: \d+:16>::on_packet_authenticated$",
   pure=[r"IndexMut<SpaceId>>::index_mut", r"Index<SpaceId>>::index", r"is_server", r"is_client", r"is_ce", r"is_some"],
   modifies=lambda c: {r"reset_keep_alive|reset_idle_timeout|set_key_discard_timer": [_cf(c, "timers")],
                       r"discard_space": [_cf(c, "spaces"), _cf(c, "timers"), _cf(c, "path"), _cf(c, "zero_rtt_crypto")],
@@ -3395,3 +3396,106 @@ Q(name="e2_poll_transmit_close_reason_slice", props=["C08"], func=r"connection/m
   functions=["Connection::poll_transmit (slice: the CONNECTION_CLOSE branch)", "<SpaceId as PartialEq>::eq (as equality of discriminants)"], pre=lambda c: ule(c.inp(c.fn.debug["space_id"][0] + "#discr", I64), bv(2)), post=cr_post,
   bounds="the close branch from an ARBITRARY state, every packet-number space: the close reason stored in the connection state (which may be the APPLICATION's code and text) is encoded only into a 1-RTT packet, or when it is a transport-level reason; in Initial and Handshake packets an application close goes out as the generic APPLICATION_ERROR without text (RFC 9000 10.2.3), so nothing of the application leaks before the handshake is confirmed; promoted `&SpaceId::X` constants are resolved from the MIR dump",
   replay=("conn_close_reason_early_native", lambda m: [dict(x=0)]))
+
+
+# ------------------------------------------------------------------ C06: MAX_STREAM_DATA cannot open streams beyond the limit we advertised
+def _rmsd_fields(c):
+    return "*_1.%d" % _ss(c, "next_remote"), "*_1.%d" % _ss(c, "max_remote")
+
+
+def rmsd_pre(c):
+    nr, mr = _rmsd_fields(c)
+    return and_(ule(c.inp("*_1.%d#discr" % _ss(c, "side"), I64), bv(1)),
+                *[ule(c.inp("%s[%d]" % (nr, d), BV64), c.inp("%s[%d]" % (mr, d), BV64)) for d in (0, 1)])
+
+
+def rmsd_post(c, p):
+    st = p.p.state
+    if p.p.outcome != "return":
+        return "true"
+    nr, mr = _rmsd_fields(c)
+    conj = [ule(c.ex.read_key(st, "%s[%d]" % (nr, d), BV64).t, c.ex.read_key(st, "%s[%d]" % (mr, d), BV64).t) for d in (0, 1)]
+    conj += [eq(c.ex.read_key(st, "%s[%d]" % (mr, d), BV64).t, c.inp("%s[%d]" % (mr, d), BV64)) for d in (0, 1)]
+    return and_(*conj)
+
+
+Q(name="e2_received_max_stream_data_limit", props=["C06"], func=r"streams/state\.rs:\d+:1: \d+:18>::received_max_stream_data$",
+  allowed_panics=r".", ignore_untranslatable=r".", inline=[r"StreamsState::on_stream_frame$", r"StreamsState::is_local_unopened$", r"StreamId::dir$", r"StreamId::initiator$", r"StreamId::index$"],
+  functions=["StreamsState::received_max_stream_data", "StreamsState::on_stream_frame"], pre=rmsd_pre, post=rmsd_post,
+  bounds="every stream id, every offset, every outcome of the stream-map lookup, from every state in which the number of peer-initiated streams counted as opened is within the advertised limit (both directions): it still is afterwards - a MAX_STREAM_DATA frame cannot make the receiver count streams as opened that the peer was never allowed to open (RFC 9000 4.6), and the limit itself is not touched",
+  replay=("streams_max_stream_data_limit_native", lambda m: [dict(max_remote=0, index=0), dict(max_remote=3, index=3), dict(max_remote=3, index=1 << 40), dict(max_remote=3, index=2)]))
+
+
+# ------------------------------------------------------------------ C17 / C01: a Retry forgets the 0-RTT packets - the control frames they carried are queued again (one loop iteration, slice)
+def rqe_post(c, p):
+    st = p.p.state
+    if p.p.outcome != "stop":
+        return "true"
+    nx = p.called(r"as Iterator>::next$")
+    rif = p.called(r"Connection::remove_in_flight$")
+    bo = p.called(r"<Retransmits as BitOrAssign<ThinRetransmits>>::bitor_assign$")
+    if "loop back-edge" not in str(p.p.detail):
+        return "false" if (rif or bo) else "true"
+    if len(nx) != 1 or len(rif) != 1 or len(bo) != 1:
+        return "false"
+    item = nx[0][2] + "@Some.0"
+    if rif[0][1][1][0] != "ref" or c.ex.origin(st, _k(rif[0][1][1][1])) != item:
+        return "false"
+    # what is OR-ed into the queue is the retransmit set of THIS packet, and the queue is the Data space's
+    retr_f, pend_f = c.field("connection/spaces.rs", "SentPacket", "retransmits"), c.field("connection/spaces.rs", "PacketSpace", "pending")
+    a = bo[0][1]
+    src_ok = a[1][0] in ("agg", "ref", "val") and c.ex.origin(st, _k(a[1][1])) == "%s.%d" % (item, retr_f)
+    data = "'SpaceId', %d)" % c.ex.enums["SpaceId"].index("Data")
+    idx = [x for x in p.called(r"IndexMut<SpaceId>>::index_mut$") if data in str(x[1][1])]
+    dst_ok = a[0][0] == "ref" and any(str(_k(a[0][1])) == "*%s.%d" % (x[2], pend_f) for x in idx)
+    return "true" if (src_ok and dst_ok) else "false"
+
+
+Q(name="e2_retry_requeues_early_frames_slice", props=["C17", "C01"], func=r"connection/mod\.rs:\d+:1: \d+:16>::process_decrypted_packet$",
+  src="connection/mod.rs", within=r"^    fn process_decrypted_packet\(", start_line=[r"let zero_rtt = mem::take\(", r"(?#before)^                for info in zero_rtt\.into_values\(\) \{"],
+  end_line=[r"^                self\.streams\.retransmit_all_for_0rtt\(\);", r"(?#before)^                let token_len = packet\.payload\.len\(\) - 16;"],
+  allowed_panics=r".", check_stop=True, loop_is_stop=True,
+  functions=["Connection::process_decrypted_packet (slice: the loop over the 0-RTT packets forgotten when a Retry is followed, one iteration)"], pre=lambda c: "true", post=rqe_post,
+  bounds="from an ARBITRARY state, one iteration of the loop: the packet taken from the Data space's record is removed from the in-flight accounting and the retransmittable control frames it carried (RESET_STREAM, STOP_SENDING, MAX_DATA, MAX_STREAM_DATA, ...) are OR-ed into the Data space's queue of frames to send; nothing else is OR-ed in",
+  replay=("conn_retry_early_frames_native", lambda m: [dict(x=0)]))
+
+
+# ------------------------------------------------------------------ C04: packets without packet protection (Retry, Version Negotiation) are looked at only by a handshaking client (slice)
+def _conn_state_variant(name):
+    # `State` is the name of two enums in quinn-proto; this is the connection's
+    import e2 as _e2
+    text = open(os.path.join(_e2.REPO, "quinn-proto", "src", "connection", "mod.rs")).read()
+    m = re.search(r"^pub enum State \{(.*?)^\}", text, re.S | re.M)
+    names = re.findall(r"^    (\w+)", m.group(1), re.M)
+    return names.index(name)
+
+
+def hpu_post(c, p):
+    st = p.p.state
+    calls = st.calls
+    acted = [x for x in calls if re.search(r"process_decrypted_packet$|on_packet_authenticated$", x[0])]
+    if not acted:
+        return "true"
+    out = []
+    # judged where the packet is first acted upon (on_packet_authenticated, opaque here, would otherwise stand for
+    # an arbitrary change of the connection between the two calls; that both see the same number is
+    # e2_handle_packet_core_slice's business)
+    for x in acted[:1]:
+        num = x[1][3] if x[0].endswith("process_decrypted_packet") else x[1][4]
+        if num[0] != "agg":
+            return "false"
+        snap = _Snap(st, x[3]) if x[3] is not None else st
+        has_num = eq(c.ex.read_key(snap, _k(num[1]) + "#discr", I64).t, bv(1))
+        client = eq(c.ex.read_key(snap, _conn(c, "side") + "#discr", I64).t, bv(c.ex.enums["ConnectionSide"].index("Client")))
+        hs = eq(c.ex.read_key(snap, _conn(c, "state") + "#discr", I64).t, bv(_conn_state_variant("Handshake")))
+        out.append(or_(has_num, and_(client, hs)))
+    return and_(*out)
+
+
+Q(name="e2_handle_packet_unprotected_slice", props=["C04"], func=r"connection/mod\.rs:\d+:1: \d+:16>::handle_packet$",
+  src="connection/mod.rs", within=r"^    fn handle_packet\(", start_line=r"let decrypted = match packet \{", end_line=r"if let Err\(conn_err\) = result \{",
+  inline=[r"is_some_and", r"handle_packet::\{closure#0\}", r"State::is_handshake$", r"State::is_closed$", r"ConnectionSide::is_client$", r"ConnectionSide::is_server$", r"ConnectionSide::side$", r"Side::is_client$", r"Side::is_server$"],
+  check_stop=True, allowed_panics=r".", ignore_untranslatable=r"^loop at",
+  functions=["Connection::handle_packet (slice: from `let decrypted = match packet` to the error-state transitions)"], pre=lambda c: "true", post=hpu_post,
+  bounds="the middle of handle_packet, executed from an ARBITRARY state: a packet for which decrypt_packet reported no packet number - a Retry or a Version Negotiation packet, which carry no packet protection and can be forged by anyone who has seen a connection ID - is counted as authenticated (idle timer, ECN counters) or handed to process_decrypted_packet only if this is a client whose handshake is still in progress; an established, closing or server-side connection is not touched by it",
+  replay=("conn_unprotected_packet_native", lambda m: [dict(mode=k) for k in range(5)]))
